@@ -30,4 +30,138 @@ theorem range_value_safe (m : Msg) (sb eb : Nat) (h1 : 1 ≤ sb) (h2 : 1 ≤ eb)
   repeat' apply And.intro
   all_goals (intros; omega)
 
+
+theorem flag_and_range_value_safe (m : Msg) (flag sb eb : Nat) (hf : flag ≤ 4 * m.length) (h1 : 1 ≤ sb) (h2 : 1 ≤ eb)
+    (h3 : eb ≤ 4 * m.length) (hl : m.length < 2 ^ 32) : T.flag_and_range_value.safe m flag sb eb := by
+  unfold T.flag_and_range_value.safe
+  simp only [bit_location_eq, bitLocation_eq]
+  have hm : (flag - 1) % 4 < 4 := Nat.mod_lt _ (by decide)
+  refine ⟨fun h => bit_location_safe flag (by omega), ?_, ?_, ?_, range_value_safe m sb eb h1 h2 h3 hl⟩ <;> (intros; omega)
+
+theorem status_flag_and_range_value_safe (m : Msg) (status flag sb eb : Nat) (hs : status ≤ 4 * m.length) (hf : flag ≤ 4 * m.length)
+    (h1 : 1 ≤ sb) (h2 : 1 ≤ eb) (h3 : eb ≤ 4 * m.length) (hl : m.length < 2 ^ 32) :
+    T.status_flag_and_range_value.safe m status flag sb eb := by
+  unfold T.status_flag_and_range_value.safe
+  simp only [bit_location_eq, bitLocation_eq]
+  have hm : (status - 1) % 4 < 4 := Nat.mod_lt _ (by decide)
+  refine ⟨fun h => bit_location_safe status (by omega), ?_, ?_, ?_, flag_and_range_value_safe m flag sb eb hf h1 h2 h3 hl⟩ <;> (intros; omega)
+
+theorem get_downlink_format_safe (m : Msg) (h : 2 ≤ m.length) (hl : m.length < 2 ^ 32) : T.get_downlink_format.safe m :=
+  range_value_safe m 1 5 (by decide) (by decide) (by omega) hl
+
+/-- a field whose first bit is not after its last is always there -/
+theorem range_value_isSome (m : Msg) (sb eb : Nat) (h1 : 1 ≤ sb) (h : sb ≤ eb) : (T.range_value m sb eb).isSome = true := by
+  unfold T.range_value
+  simp only [bit_location_eq, bitLocation_eq]
+  have : ¬ ((eb - 1) / 4 < (sb - 1) / 4 ∨ ((eb - 1) / 4 = (sb - 1) / 4 ∧ (eb - 1) % 4 < (sb - 1) % 4)) := by omega
+  simp [this]
+
+theorem crc56_safe (m : Msg) (h : 8 ≤ m.length) (hl : m.length < 2 ^ 32) : T.crc56.safe m := by
+  unfold T.crc56.safe
+  exact ⟨range_value_safe m 1 32 (by decide) (by decide) (by omega) hl, range_value_isSome m 1 32 (by decide) (by decide)⟩
+
+theorem crc112_safe (m : Msg) (h : 22 ≤ m.length) (hl : m.length < 2 ^ 32) : T.crc112.safe m := by
+  unfold T.crc112.safe
+  refine ⟨range_value_safe m 1 32 (by decide) (by decide) (by omega) hl, range_value_isSome m 1 32 (by decide) (by decide),
+    range_value_safe m 33 64 (by decide) (by decide) (by omega) hl, range_value_isSome m 33 64 (by decide) (by decide),
+    range_value_safe m 65 88 (by decide) (by decide) (by omega) hl, ?_⟩
+  have := range_value_isSome m 65 88 (by decide) (by decide)
+  simpa using this
+
+/-- `get_crc` on a frame whose length fits its format -/
+theorem get_crc_safe (m : Msg) (df : Nat) (h : (df ≤ 15 ∧ 8 ≤ m.length) ∨ (15 < df ∧ 22 ≤ m.length)) (hl : m.length < 2 ^ 32) :
+    T.get_crc.safe m df := by
+  unfold T.get_crc.safe
+  constructor
+  · intro hd; rcases h with h | h
+    · exact crc56_safe m h.2 hl
+    · omega
+  · intro hd; rcases h with h | h
+    · omega
+    · exact crc112_safe m h.2 hl
+
+
+/-- the length a frame has when the gate of `get_message` has let it through -/
+def Fits (m : Msg) : Prop :=
+  ∀ df, T.get_downlink_format m = some df → (df ≤ 15 ∧ m.length = 14) ∨ (16 ≤ df ∧ m.length = 28)
+
+theorem parity_ok_safe (m : Msg) (h : 14 ≤ m.length) (hl : m.length ≤ 28) (hfit : Fits m) : T.parity_ok.safe m := by
+  unfold T.parity_ok.safe
+  have hlen : (m.length * 4) % 4294967296 = m.length * 4 := Nat.mod_eq_of_lt (by omega)
+  have hl32 : m.length < 2 ^ 32 := by omega
+  simp only [hlen]
+  have hrv : T.range_value.safe m (m.length * 4 - 23) (m.length * 4) := range_value_safe m _ _ (by omega) (by omega) (by omega) hl32
+  refine ⟨by omega, get_downlink_format_safe m (by omega) hl32, ?_, ?_, ?_, ?_, ?_, ?_⟩
+  · intro o _ _; omega
+  · intro o _ _; exact hrv
+  · intro o ho h17
+    split
+    · apply get_crc_safe m o _ hl32
+      rcases hfit o ho with ⟨a, b⟩ | ⟨a, b⟩ <;> [(rcases h17 with h17 | h17 <;> omega); (right; omega)]
+    · trivial
+  · intro o _ _; omega
+  · intro o _ _; exact hrv
+  · intro o ho h11
+    split
+    · apply get_crc_safe m 11 _ hl32
+      left; exact ⟨by decide, by omega⟩
+    · trivial
+
+
+theorem ma_code_safe (m : Msg) (h : 8 ≤ m.length) : T.ma_code.safe m := by
+  unfold T.ma_code.safe
+  simp only [List.zipIdx]
+  refine ⟨?_, ?_, ?_, ?_⟩ <;> (intro _ p hp; simp at hp; rcases hp with h | h | h | h | h | h | h | h | h | h | h | h | h | h <;> subst h <;> simp <;> omega)
+
+theorem extract_bit_safe (v b : Nat) (h : b < 16) : T.extract_bit.safe v b := h
+
+theorem graytobin_safe (m : Msg) (h : 8 ≤ m.length) : T.graytobin.safe m := by
+  unfold T.graytobin.safe
+  refine ⟨ma_code_safe m h, ?_, ?_, ?_, ?_, ?_, ?_, ?_, ?_, ?_, ?_⟩ <;> (split <;> first | (show _ < 16; decide) | trivial)
+
+theorem clean_squitter_safe (cs : List Char) : T.clean_squitter.safe cs := by
+  unfold T.clean_squitter.safe
+  intro h
+  omega
+
+
+/-- **`get_message` never traps, on any line**: the gate itself establishes what its later stages need -/
+theorem get_message_safe (cs : List Char) : T.get_message.safe cs := by
+  unfold T.get_message.safe
+  refine ⟨clean_squitter_safe cs, ?_, ?_⟩
+  · split
+    · rename_i m hm
+      rw [Option.filter_eq_some_iff] at hm
+      have hlen : m.length = 14 ∨ m.length = 28 := by simpa using hm.2
+      exact get_downlink_format_safe m (by omega) (by omega)
+    · trivial
+  · split
+    · rename_i m hm
+      rw [Option.filter_eq_some_iff] at hm
+      obtain ⟨hm, _⟩ := hm
+      rw [Option.filter_eq_some_iff] at hm
+      obtain ⟨hm, hfit⟩ := hm
+      rw [Option.filter_eq_some_iff] at hm
+      have hlen : m.length = 14 ∨ m.length = 28 := by simpa using hm.2
+      apply parity_ok_safe m (by omega) (by omega)
+      intro df hdf
+      rw [hdf] at hfit
+      by_cases h15 : df ≤ 15
+      · left; simpa [h15] using hfit
+      · right; simp [h15] at hfit; omega
+    · trivial
+
+theorem get_icao_safe (m : Msg) (df : Nat) (h : 14 ≤ m.length) (hl : m.length ≤ 28)
+    (hfit : (df ≤ 15 ∧ 8 ≤ m.length) ∨ (15 < df ∧ 22 ≤ m.length)) : T.get_icao.safe m df := by
+  unfold T.get_icao.safe
+  have hlen : (m.length * 4) % 4294967296 = m.length * 4 := Nat.mod_eq_of_lt (by omega)
+  have hl32 : m.length < 2 ^ 32 := by omega
+  simp only [hlen]
+  refine ⟨fun _ => by omega, fun _ => by omega, fun _ => range_value_safe m _ _ (by omega) (by omega) (by omega) hl32, ?_,
+    fun _ => range_value_safe m 9 32 (by decide) (by decide) (by omega) hl32⟩
+  intro _
+  split
+  · exact get_crc_safe m df hfit hl32
+  · trivial
+
 end Sq.Safe
